@@ -3,7 +3,7 @@ solver engines): for every storable column type a table is written on the disk e
 column, several row-sets), read back whole, after deleting ranges (skips), after a forced compaction pass (which rewrites
 the columns, with run-length / dictionary encoding where the data has few distinct values) and after a clean reopen; every
 read must equal what the in-memory engine returns for the same statements."""
-import json, shutil, time
+import json, re, shutil, time
 from vlib.common import rl, scratch_dir
 
 
@@ -96,6 +96,14 @@ def run(rep, thorough):
         shutil.rmtree(d, ignore_errors=True)
         disk = [o for o in out if 'sql' in o]
         if len(disk) != len(s_disk):
+            if 'panic' in err and rc not in (-9,):
+                # the engine dies while writing / reading a column the memory engine handles: a failed round trip
+                last = s_disk[len(disk)] if len(disk) < len(s_disk) else '?'
+                m_ = re.search(r't_(\w+)', last)
+                what = 'the disk engine (%d-byte blocks) panics on `%s` (the memory engine completes the same statements): %s' % (block, last[:120], err[-220:].replace('\n', ' '))
+                outc = rep.counterexample('disk-roundtrip:%s:engine-panics' % (m_.group(1) if m_ else 'unknown'), what[:500], {'stmts': s_disk[max(0, len(disk) - 6):len(disk) + 1], 'stderr': err[-600:]}, True)
+                rep.obligation(outc == 'known')
+                continue
             rep.fail_inconclusive('column round-trip probe (%d-byte blocks) did not complete: %s' % (block, err[-300:]))
             continue
         rep.cov['programs'] += 1
